@@ -173,10 +173,25 @@ Definition get_uid_as_hex (uid : N) : outcome (list N) :=
   else do numbers <- digits_loop 10 uid []; hex_loop (length numbers) 0 numbers [].
 
 Inductive auth_res := AOk | ARejected | AErr | ABlocked | APanic | AFuel.
-(* `if msg.starts_with(word) { Ok(AuthResult::Ok) } else { Ok(AuthResult::Rejected) }`, io errors by `?` *)
+(* str::strip_prefix *)
+Fixpoint strip_prefix (pfx s : list N) : option (list N) :=
+  match pfx, s with
+  | [], _ => Some s
+  | x :: p', y :: s' => if x =? y then strip_prefix p' s' else None
+  | _ :: _, [] => None
+  end.
+Definition SPACE : N := 32.
+(* is_command: match line.strip_prefix(command) { Some(rest) => rest.is_empty() || rest.starts_with(' '), None => false } *)
+Definition is_command (line command : list N) : bool :=
+  match strip_prefix command line with
+  | Some rest => match rest with [] => true | c :: _ => c =? SPACE end
+  | None => false
+  end.
+
+(* `if is_command(&msg, word) { Ok(AuthResult::Ok) } else { Ok(AuthResult::Rejected) }`, io errors by `?` *)
 Definition classify (word : list N) (r : rm_result) : auth_res :=
   match r with
-  | RmLine line => if starts_with word line then AOk else ARejected
+  | RmLine line => if is_command line word then AOk else ARejected
   | RmErr => AErr
   | RmBlocked => ABlocked
   | RmPanic => APanic
@@ -184,7 +199,7 @@ Definition classify (word : list N) (r : rm_result) : auth_res :=
   end.
 
 (* do_auth: sendmsg of one NUL byte, write_message("AUTH EXTERNAL <hex uid>"), read_message into a
-   fresh buffer, starts_with("OK") *)
+   fresh buffer, is_command(msg, "OK") *)
 Definition do_auth (fuel : nat) (uid : N) (s : sock) : auth_res * sock :=
   match sock_write s NUL false with
   | None => (AErr, s)
